@@ -36,3 +36,12 @@ package v2
 //@   loop 1 invariant (errorsInBulk <==> errCount(ret) > 0) && (!continueOnFailure ==> errCount(ret) == 0)
 //@   loop 1 decreases len(bulk) - rangeindex
 //@   property C18
+
+// C14: the dry-run flag of the request reaches the engine. The accepted spellings (YES / TRUE in any case, or 1)
+// are the API's; a request carrying one of them must never run as a real write.
+//@ def qparam(r, name) = lib("(net/url.Values).Get", lib("(*net/url.URL).Query", r.URL), name)
+//@ func v2.getCommandParameters
+//@   requires r != nil
+//@   ensures ret.DryRun <==> (lib("strings.ToUpper", qparam(r, "dryRun")) == "YES" || lib("strings.ToUpper", qparam(r, "dryRun")) == "TRUE" || qparam(r, "dryRun") == "1")
+//@   ensures ret.IdempotencyKey == lib("(net/http.Header).Get", r.Header, "Idempotency-Key")
+//@   property C14 C07
